@@ -11,6 +11,10 @@ import Gama.Model.SymChol
 import Gama.Gen.DimChecks
 import Gama.Model.MatObj
 import Gama.Gen.MatMembers
+import Gama.Model.SymObj
+import Gama.Model.VecObj
+import Gama.Model.ObjCatch
+import Gama.Gen.SymVecMembers
 open Gama Gama.Proto Gama.MatVec
 
 namespace C15
@@ -23,8 +27,11 @@ structure Sess (K : Type) where
   dims : Nat → Int × Int
   /-- `row_`, `col_`, `pentry` of the Mat living in a MemRep slot (Model/MatObj.lean) -/
   mext : Nat → MatObj.Ext
+  /-- `row_`, `col_`, `tol_`, `dim_`, `idf_` of the SymMat living in a MemRep slot (Model/SymObj.lean) -/
+  sext : Nat → SymObj.Ext K
 
-def Sess.init {K : Type} : Sess K := ⟨MemRep.St.init, fun _ => (0, 0), fun _ => ⟨0, 0, none⟩⟩
+def Sess.init {K : Type} [Inhabited K] : Sess K :=
+  ⟨MemRep.St.init, fun _ => (0, 0), fun _ => ⟨0, 0, none⟩, fun _ => ⟨0, 0, default, 0, 0⟩⟩
 
 -- MemRep slot numbering: r.* 0..7, v.* 8..15, m.* 16..23, s.* 24..31, temporaries 32, 33
 def slotBase (kind : Char) : Nat := if kind = 'r' then 0 else if kind = 'v' then 8 else if kind = 'm' then 16 else 24
@@ -51,7 +58,7 @@ def dumpSlots (s : Sess K) (kind : Char) : String :=
       let hd := if kind = 'm' then
                   let e := s.mext (base + i); s!"{e.row} {e.col}"
                 else if kind = 's' then
-                  let d := s.dims (base + i); s!"{d.1} {d.2}"
+                  let e := s.sext (base + i); s!"{e.row} {e.col}"
                 else toString l.length
       " | " ++ hd ++ (if l.isEmpty then "" else " " ++ renderAll l))
   s!"dump live={liveBlocks s.heap} ub={s.heap.ubNull}" ++ String.join parts
@@ -95,12 +102,184 @@ def showMStop : MatObj.Stop → String
   | .heapFault => "heap-fault"
 
 /-- one operation of the `Mat` object-history machine (Model/MatObj.lean), with the `pentry`
-    initialisation regenerated from mat.h.  After `throw Singular` the C++ object is left partially
-    eliminated; the model keeps the state before the call (scripts re-fill the object). -/
+    initialisation regenerated from mat.h, under `try`/`catch`: after a C++ exception the session goes on
+    from the state the throwing call left behind (`MatObj.thrown`, Model/ObjCatch.lean) — after
+    `throw Singular` the object is half eliminated. -/
 def runMat (s : Sess K) (op : MatObj.Op K) : Sess K × String :=
   match MatObj.step Gen.MatMembers.pentryInit ⟨s.heap, s.mext⟩ op with
   | .ok st => ({ s with heap := st.mem, mext := st.ext }, "ok")
-  | .error e => (s, showMStop e)
+  | .error e =>
+    if ObjCatch.isExc e then
+      let st := MatObj.thrown ⟨s.heap, s.mext⟩ op
+      ({ s with heap := st.mem, mext := st.ext }, showMStop e)
+    else (s, showMStop e)
+
+/-- one operation of the `SymMat` object-history machine (Model/SymObj.lean) under `try`/`catch` -/
+def runSym (s : Sess K) (op : SymObj.Op K) : Sess K × String :=
+  match SymObj.step ⟨s.heap, s.sext⟩ op with
+  | .ok st => ({ s with heap := st.mem, sext := st.ext }, "ok")
+  | .error e =>
+    if ObjCatch.isExc e then
+      let st := SymObj.thrown ⟨s.heap, s.sext⟩ op
+      ({ s with heap := st.mem, sext := st.ext }, showMStop e)
+    else (s, showMStop e)
+
+/-- one operation of the `Vec` object-history machine (Model/VecObj.lean) under `try`/`catch` -/
+def runVec (s : Sess K) (op : VecObj.Op K) : Sess K × String :=
+  match VecObj.step s.heap op with
+  | .ok st => ({ s with heap := st }, "ok")
+  | .error e =>
+    if ObjCatch.isExc e then ({ s with heap := VecObj.thrown s.heap op }, showMStop e)
+    else (s, showMStop e)
+
+/-- all members of the SymMat objects: `dim_ row_ col_ idf_ tol_` and the packed elements -/
+def dumpSym (s : Sess K) : String :=
+  let parts := (List.range 8).map (fun i =>
+    match MemRep.val s.heap (24 + i) with
+    | none => " | -"
+    | some l =>
+      let e := s.sext (24 + i)
+      s!" | {e.dim} {e.row} {e.col} {e.idf} {Wire.render e.tol}" ++ (if l.isEmpty then "" else " " ++ renderAll l))
+  s!"dump live={liveBlocks s.heap} ub={s.heap.ubNull}" ++ String.join parts
+
+/-- `s.*` lines: SymMat objects live in MemRep slots 24..31.  `isFloat = false`: `cholDec` needs `sqrt`,
+    the exact driver answers `no-sqrt` and leaves the object alone. -/
+def symStep (isFloat : Bool) (s : Sess K) (op : String) (a : List String) : Option (Sess K × String) :=
+  let slot? (t : String) : Option Nat := match t.toNat? with
+    | some i => if i < 8 then some (24 + i) else none
+    | none => none
+  match op, a with
+  | "xdump", [] => some (s, dumpSym s)
+  | "ctor", [i, d] =>
+    match slot? i, d.toNat? with
+    | some id, some d => some (runSym s (.ctor id d))
+    | _, _ => some (s, "bad-op")
+  | "ctor2", [i, r, c] =>
+    match slot? i, r.toNat?, c.toNat? with
+    | some id, some r, some c => some (runSym s (.ctor2 id r c))
+    | _, _, _ => some (s, "bad-op")
+  | "copy", [i, j] | "move", [i, j] =>
+    match slot? i, slot? j with
+    | some id, some src =>
+      if op = "move" ∧ Gen.SymVecMembers.symMoves then some (s, "model-has-no-symmat-move")
+      else some (runSym s (.copyCtor id src))
+    | _, _ => some (s, "bad-op")
+  | "assign", [i, j] | "massign", [i, j] =>
+    match slot? i, slot? j with
+    | some id, some src =>
+      if op = "massign" ∧ Gen.SymVecMembers.symMoves then some (s, "model-has-no-symmat-move")
+      else some (runSym s (.assign id src))
+    | _, _ => some (s, "bad-op")
+  | "reset", [i, d] =>
+    match slot? i, d.toInt? with
+    | some id, some d => some (runSym s (.reset id d))
+    | _, _ => some (s, "bad-op")
+  | "reset2", [i, r, c] =>
+    match slot? i, r.toInt?, c.toInt? with
+    | some id, some r, some c => some (runSym s (.reset2 id r c))
+    | _, _, _ => some (s, "bad-op")
+  | "set", [i, r, c, x] =>
+    match slot? i, r.toNat?, c.toNat?, (Wire.parse x : Option K) with
+    | some id, some r, some c, some x => some (runSym s (.set id r c x))
+    | _, _, _, _ => some (s, "bad-op")
+  | "fill", [i, x] =>
+    match slot? i, (Wire.parse x : Option K) with
+    | some id, some x => some (runSym s (.setAll id x))
+    | _, _ => some (s, "bad-op")
+  | "scale", [i, x] =>
+    match slot? i, (Wire.parse x : Option K) with
+    | some id, some x => some (runSym s (.scale id x))
+    | _, _ => some (s, "bad-op")
+  | "tol", [i, x] =>
+    match slot? i, (Wire.parse x : Option K) with
+    | some id, some x => some (runSym s (.setTol id x))
+    | _, _ => some (s, "bad-op")
+  | "add", [i, j] =>
+    match slot? i, slot? j with
+    | some id, some src => some (runSym s (.addAssign id src))
+    | _, _ => some (s, "bad-op")
+  | "sub", [i, j] =>
+    match slot? i, slot? j with
+    | some id, some src => some (runSym s (.subAssign id src))
+    | _, _ => some (s, "bad-op")
+  | "chol", [i] =>
+    match slot? i with
+    | some id => if isFloat then some (runSym s (.cholDec id)) else some (s, "no-sqrt")
+    | none => some (s, "bad-op")
+  | "invert", [i] =>
+    match slot? i with
+    | some id => some (runSym s (.invert id))
+    | none => some (s, "bad-op")
+  | "dtor", [i] =>
+    match slot? i with
+    | some id => some (runSym s (.dtor id))
+    | none => some (s, "bad-op")
+  | _, _ => none
+
+/-- `v.*` lines: Vec objects live in MemRep slots 8..15 -/
+def vecStep (s : Sess K) (op : String) (a : List String) : Option (Sess K × String) :=
+  let slot? (t : String) : Option Nat := match t.toNat? with
+    | some i => if i < 8 then some (8 + i) else none
+    | none => none
+  let moves := Gen.SymVecMembers.vecMoves
+  match op, a with
+  | "ctor", [i, n] =>
+    match slot? i, n.toInt? with
+    | some id, some n => some (runVec s (.ctor id n))
+    | _, _ => some (s, "bad-op")
+  | "copy", [i, j] =>
+    match slot? i, slot? j with
+    | some id, some src => some (runVec s (.copyCtor id src))
+    | _, _ => some (s, "bad-op")
+  | "move", [i, j] =>
+    match slot? i, slot? j with
+    | some id, some src => some (runVec s (if moves then .moveCtor id src else .copyCtor id src))
+    | _, _ => some (s, "bad-op")
+  | "assign", [i, j] =>
+    match slot? i, slot? j with
+    | some id, some src => some (runVec s (.assign id src))
+    | _, _ => some (s, "bad-op")
+  | "massign", [i, j] =>
+    match slot? i, slot? j with
+    | some id, some src => some (runVec s (if moves then .moveAssign id src else .assign id src))
+    | _, _ => some (s, "bad-op")
+  | "reset", [i, n] =>
+    match slot? i, n.toNat? with
+    | some id, some n => some (runVec s (.reset id n))
+    | _, _ => some (s, "bad-op")
+  | "set", [i, k, x] =>
+    match slot? i, k.toNat?, (Wire.parse x : Option K) with
+    | some id, some k, some x => some (runVec s (.set id k x))
+    | _, _, _ => some (s, "bad-op")
+  | "fill", [i, x] =>
+    match slot? i, (Wire.parse x : Option K) with
+    | some id, some x => some (runVec s (.setAll id x))
+    | _, _ => some (s, "bad-op")
+  | "scale", [i, x] =>
+    match slot? i, (Wire.parse x : Option K) with
+    | some id, some x => some (runVec s (.scale id x))
+    | _, _ => some (s, "bad-op")
+  | "add", [i, j] =>
+    match slot? i, slot? j with
+    | some id, some src => some (runVec s (.addAssign id src))
+    | _, _ => some (s, "bad-op")
+  | "sub", [i, j] =>
+    match slot? i, slot? j with
+    | some id, some src => some (runVec s (.subAssign id src))
+    | _, _ => some (s, "bad-op")
+  | "plus", [i, j, k] =>
+    match slot? i, slot? j, slot? k with
+    | some id, some a, some b => some (runVec s (.plus id a b))
+    | _, _, _ => some (s, "bad-op")
+  | "minus", [i, j, k] =>
+    match slot? i, slot? j, slot? k with
+    | some id, some a, some b => some (runVec s (.minus id a b))
+    | _, _, _ => some (s, "bad-op")
+  | "dtor", [i] =>
+    match slot? i with
+    | some id => some (runVec s (.dtor id))
+    | none => some (s, "bad-op")
+  | _, _ => none
 
 /-- `m.*` lines: Mat objects live in MemRep slots 16..23 -/
 def matStep (s : Sess K) (op : String) (a : List String) : Option (Sess K × String) :=
@@ -150,8 +329,9 @@ def matStep (s : Sess K) (op : String) (a : List String) : Option (Sess K × Str
     | none => some (s, "bad-op")
   | _, _ => none
 
-def objStep (s : Sess K) (kind : Char) (op : String) (a : List String) : Sess K × String :=
-  match (if kind = 'm' then matStep s op a else none) with
+def objStep (isFloat : Bool) (s : Sess K) (kind : Char) (op : String) (a : List String) : Sess K × String :=
+  match (if kind = 'm' then matStep s op a else if kind = 's' then symStep isFloat s op a
+         else if kind = 'v' then vecStep s op a else none) with
   | some r => r
   | none =>
   let base := slotBase kind
@@ -468,7 +648,7 @@ def step (isFloat : Bool) (s : Sess K) (line : String) : Sess K × String :=
   | t :: rest =>
     match t.toList with
     | [k, '.'] => (s, "bad-op")
-    | k :: '.' :: opn => if k = 'r' ∨ k = 'v' ∨ k = 'm' ∨ k = 's' then objStep s k (String.ofList opn) rest else (s, "bad-op")
+    | k :: '.' :: opn => if k = 'r' ∨ k = 'v' ∨ k = 'm' ∨ k = 's' then objStep isFloat s k (String.ofList opn) rest else (s, "bad-op")
     | _ => (s, "bad-op")
 
 end
